@@ -52,6 +52,14 @@ namespace foonathan
                            + (number_of_nodes % chunk_max_nodes == 0 ? 0 : 1);
                 }
 
+                // padding insert() puts after each full chunk so that the next one is aligned
+                static constexpr std::size_t chunk_align_buffer(std::size_t node_size)
+                {
+                    return (alignof(chunk_base)
+                            - (chunk_memory_offset + chunk_max_nodes * node_size) % alignof(chunk_base))
+                           % alignof(chunk_base);
+                }
+
             public:
                 // minimum element size
                 static constexpr std::size_t min_element_size = 1;
@@ -63,7 +71,8 @@ namespace foonathan
                                                             std::size_t number_of_nodes)
                 {
                     return chunk_count(number_of_nodes)
-                           * (chunk_memory_offset + chunk_max_nodes * node_size);
+                           * (chunk_memory_offset + chunk_max_nodes * node_size
+                              + chunk_align_buffer(node_size));
                 }
 
                 //=== constructor ===//
